@@ -36,6 +36,23 @@ func TestRegressionRouterPort0(t *testing.T) {
 			recReg.Case("router-port0/"+c.name+"/"+addrClass(target), true, "router-port0")
 		}
 	}
+	// Round 6: the source-port twin (same root cause, same fix in 501fd63). A datagram's source port is whatever its sender put
+	// into the UDP header, 0 included, and service/udp_*.go hand it to GetUDPClient as it is.
+	for _, c := range routerCells(t) {
+		if len(c.ports) == 0 || c.ports[0].side != "from" || c.ports[0].kind != "bitmap" {
+			continue
+		}
+		for _, target := range []conn.Addr{
+			conn.AddrFromIPAndPort(netip.MustParseAddr("127.0.0.1"), 53),
+			conn.MustAddrFromDomainPort("example.com", 0),
+		} {
+			info := router.RequestInfo{SourceAddrPort: netip.MustParseAddrPort("127.0.0.1:0"), TargetAddr: target}
+			guard(t, recReg, "route", func() string { return "cell=" + c.name + " source=127.0.0.1:0 target=" + target.String() }, func() {
+				_, _ = c.r.GetUDPClient(context.Background(), info)
+			})
+			recReg.Case("router-source-port0/"+c.name+"/"+addrClass(target), true, "router-source-port0")
+		}
+	}
 	// through the real entry point
 	out := oracleSocks5Server(t, 0b0110, 0, []byte{5, 1, 0, 5, 1, 0, 1, 127, 0, 0, 1, 0, 0})
 	if !out.accepted || out.addr.Port() != 0 {
